@@ -6,55 +6,55 @@ attribute [local grind cases] Ag
 
 set_option maxHeartbeats 4000000 in
 theorem i1_send {s s' : State} {a : Ag}  (hi : I1 s) (h : stepSend s a = some s') : I1 s' := by
-  obtain ⟨kSend, bodyK, freshM, freshP, freshG, goneM, finR, finS, finU, freedR, freedS, freedF, ciCl, rSide, rdropCl, recvOpen, dcST⟩ := hi
+  obtain ⟨kSend, bodyK, freshM, freshP, freshG, goneM, finR, finS, finU, freedR, freedS, freedF, ciCl, rdropCl, recvOpen, dcST⟩ := hi
   os_split h [stepSend]
   all_goals (constructor <;> os_close a)
 
 set_option maxHeartbeats 4000000 in
 theorem i1_wk {s s' : State} {a : Ag}  (hi : I1 s) (h : stepWk s a = some s') : I1 s' := by
-  obtain ⟨kSend, bodyK, freshM, freshP, freshG, goneM, finR, finS, finU, freedR, freedS, freedF, ciCl, rSide, rdropCl, recvOpen, dcST⟩ := hi
+  obtain ⟨kSend, bodyK, freshM, freshP, freshG, goneM, finR, finS, finU, freedR, freedS, freedF, ciCl, rdropCl, recvOpen, dcST⟩ := hi
   os_split h [stepWk]
   all_goals (constructor <;> os_close a)
 
 set_option maxHeartbeats 4000000 in
 theorem i1_cl {s s' : State} {a : Ag}  (hi : I1 s) (h : stepCl s a = some s') : I1 s' := by
-  obtain ⟨kSend, bodyK, freshM, freshP, freshG, goneM, finR, finS, finU, freedR, freedS, freedF, ciCl, rSide, rdropCl, recvOpen, dcST⟩ := hi
+  obtain ⟨kSend, bodyK, freshM, freshP, freshG, goneM, finR, finS, finU, freedR, freedS, freedF, ciCl, rdropCl, recvOpen, dcST⟩ := hi
   os_split h [stepCl]
   all_goals (constructor <;> os_close a)
 
 set_option maxHeartbeats 4000000 in
 theorem i1_x {s s' : State} {a : Ag}  (hi : I1 s) (h : stepX s a = some s') : I1 s' := by
-  obtain ⟨kSend, bodyK, freshM, freshP, freshG, goneM, finR, finS, finU, freedR, freedS, freedF, ciCl, rSide, rdropCl, recvOpen, dcST⟩ := hi
+  obtain ⟨kSend, bodyK, freshM, freshP, freshG, goneM, finR, finS, finU, freedR, freedS, freedF, ciCl, rdropCl, recvOpen, dcST⟩ := hi
   os_split h [stepX]
   all_goals (constructor <;> os_close a)
 
 set_option maxHeartbeats 4000000 in
 theorem i1_pb {s s' : State} {a : Ag}  (hi : I1 s) (h : stepPb s a = some s') : I1 s' := by
-  obtain ⟨kSend, bodyK, freshM, freshP, freshG, goneM, finR, finS, finU, freedR, freedS, freedF, ciCl, rSide, rdropCl, recvOpen, dcST⟩ := hi
+  obtain ⟨kSend, bodyK, freshM, freshP, freshG, goneM, finR, finS, finU, freedR, freedS, freedF, ciCl, rdropCl, recvOpen, dcST⟩ := hi
   os_split h [stepPb]
   all_goals (constructor <;> os_close a)
 
 set_option maxHeartbeats 4000000 in
 theorem i1_try {s s' : State} {a : Ag}  (hi : I1 s) (h : stepTry s a = some s') : I1 s' := by
-  obtain ⟨kSend, bodyK, freshM, freshP, freshG, goneM, finR, finS, finU, freedR, freedS, freedF, ciCl, rSide, rdropCl, recvOpen, dcST⟩ := hi
+  obtain ⟨kSend, bodyK, freshM, freshP, freshG, goneM, finR, finS, finU, freedR, freedS, freedF, ciCl, rdropCl, recvOpen, dcST⟩ := hi
   os_split h [stepTry]
   all_goals (constructor <;> os_close a)
 
 set_option maxHeartbeats 4000000 in
 theorem i1_try2 {s s' : State} {a : Ag}  (hi : I1 s) (h : stepTry2 s a = some s') : I1 s' := by
-  obtain ⟨kSend, bodyK, freshM, freshP, freshG, goneM, finR, finS, finU, freedR, freedS, freedF, ciCl, rSide, rdropCl, recvOpen, dcST⟩ := hi
+  obtain ⟨kSend, bodyK, freshM, freshP, freshG, goneM, finR, finS, finU, freedR, freedS, freedF, ciCl, rdropCl, recvOpen, dcST⟩ := hi
   os_split h [stepTry2]
   all_goals (constructor <;> os_close a)
 
 set_option maxHeartbeats 4000000 in
 theorem i1_poll {s s' : State} {a : Ag}  (hi : I1 s) (h : stepPoll s a = some s') : I1 s' := by
-  obtain ⟨kSend, bodyK, freshM, freshP, freshG, goneM, finR, finS, finU, freedR, freedS, freedF, ciCl, rSide, rdropCl, recvOpen, dcST⟩ := hi
+  obtain ⟨kSend, bodyK, freshM, freshP, freshG, goneM, finR, finS, finU, freedR, freedS, freedF, ciCl, rdropCl, recvOpen, dcST⟩ := hi
   os_split h [stepPoll]
   all_goals (constructor <;> os_close a)
 
 set_option maxHeartbeats 4000000 in
 theorem i1_call {s s' : State} {a : Ag}  (hi : I1 s) (h : stepCall s a = some s') : I1 s' := by
-  obtain ⟨kSend, bodyK, freshM, freshP, freshG, goneM, finR, finS, finU, freedR, freedS, freedF, ciCl, rSide, rdropCl, recvOpen, dcST⟩ := hi
+  obtain ⟨kSend, bodyK, freshM, freshP, freshG, goneM, finR, finS, finU, freedR, freedS, freedF, ciCl, rdropCl, recvOpen, dcST⟩ := hi
   cases a with
   | S i =>
     os_split h [stepCall]
@@ -65,13 +65,13 @@ theorem i1_call {s s' : State} {a : Ag}  (hi : I1 s) (h : stepCall s a = some s'
 
 set_option maxHeartbeats 4000000 in
 theorem i1_ret {s s' : State} {a : Ag}  (hi : I1 s) (h : stepRet s a = some s') : I1 s' := by
-  obtain ⟨kSend, bodyK, freshM, freshP, freshG, goneM, finR, finS, finU, freedR, freedS, freedF, ciCl, rSide, rdropCl, recvOpen, dcST⟩ := hi
+  obtain ⟨kSend, bodyK, freshM, freshP, freshG, goneM, finR, finS, finU, freedR, freedS, freedF, ciCl, rdropCl, recvOpen, dcST⟩ := hi
   os_split h [stepRet]
   all_goals (constructor <;> os_close a)
 
 set_option maxHeartbeats 4000000 in
 theorem i1_spur {s s' : State} {a : Ag}  (hi : I1 s) (h : stepSpurious s a = some s') : I1 s' := by
-  obtain ⟨kSend, bodyK, freshM, freshP, freshG, goneM, finR, finS, finU, freedR, freedS, freedF, ciCl, rSide, rdropCl, recvOpen, dcST⟩ := hi
+  obtain ⟨kSend, bodyK, freshM, freshP, freshG, goneM, finR, finS, finU, freedR, freedS, freedF, ciCl, rdropCl, recvOpen, dcST⟩ := hi
   os_split h [stepSpurious]
   all_goals (constructor <;> os_close a)
 
